@@ -493,6 +493,7 @@ def monOp1 (m : Mon) (op : String) (args : List String) (impl : List String) (tr
   | "dnsq", _ =>
     -- C07: a record handed to the caller never carries uninitialised (0x55-filled) fields
     (m, if (impl.any fun t => (t.splitOn "5555555555555555").length > 1) then "bad C07:dns-record-built-from-uninitialised-memory" else "ok")
+  | "vcert", _ => (m, vcertSpec args trToks impl)
   | "dnsqx", _ => (m, if (impl.any fun t => (t.splitOn "5555555555555555").length > 1) then "bad C07:dns-record-built-from-uninitialised-memory" else "ok")
   | "idle", [] =>
     -- all clients are gone and every timer has run: only the servers' own status probes (slot 0) may be alive
